@@ -238,12 +238,13 @@ class ManageSieveConnection:
                 resp_bytes = await self._read_data()
                 resp_str, _ = String.parse(resp_bytes, self.params)
                 if resp_str.value == b'*':
-                    raise AuthenticationError('Authentication cancelled.') \
-                        from None
+                    return Response(Condition.NO,
+                                    text='Authentication cancelled.')
                 try:
                     resp_dec = b64decode(resp_str.value)
-                except binascii.Error as exc:
-                    raise AuthenticationError() from exc
+                except binascii.Error:
+                    return Response(Condition.NO,
+                                    text='Invalid authentication response.')
                 else:
                     responses.append(ChallengeResponse(chal.data, resp_dec))
             except AuthenticationError as exc:
